@@ -9,6 +9,13 @@ hook_commits = [l.split()[0] for l in HOOK_COMMITS if "verif" in l.lower() and n
 
 # id -> (engine, technique, level text, level note, design ref)
 CHECKS = {
+    "C22": (
+        "E1",
+        "exhaustive enumeration of all line sequences up to length n over a 12-line alphabet, each executed through the real binary in every input channel (file, -e, file + -e at every split) with the in-process library run as reference",
+        "Every sequence of up to 2 (quick) / 3 (thorough) lines over an alphabet with succeeding lines, uses of earlier definitions and a failing line of every stage is run through the real numbat binary as a file, as -e arguments and as file + -e at every split point: exit status 0 iff the library accepts every input, stdout equals the library's printed values + result, stderr is empty on success and carries the diagnostics on failure, and the -e run equals the file run (source labels normalised).",
+        "Trusted: the library run as reference for what each input yields; environment pinned (no config, no tty, empty HOME); stdout of an input that later fails is unspecified.",
+        "§4 C22",
+    ),
     "C19": (
         "E3",
         "full product of an instant alphabet x every Time unit x duration magnitudes (arithmetic laws) and instant alphabet x every zone of the tz database (zone conversion, format/parse round trip), against an integer-nanosecond reference timeline",
